@@ -162,6 +162,13 @@ def kindOf (f : File) : Kind :=
   else if (ImmL.schemaOf f).isSome then .immutable
   else .other
 
+/-- `get_leases()` of a share file of either kind (`get_slot_leases` / `get_leases` at the server) -/
+def leasesOf (f : File) : List Lease :=
+  match kindOf f with
+  | .mutable => Mutable.getLeases f
+  | .immutable => ImmL.getLeases f
+  | .other => []
+
 def shareAddOrRenew (env : Env) (f : File) (li : Lease) : File × Option Err :=
   match kindOf f with
   | .mutable => Mutable.addOrRenew env.h f env.avail li
